@@ -1,0 +1,23 @@
+//go:build verif
+
+package errlog
+
+// Contracts for the deductive checker in /verif (comment-only file).
+
+// C09: every deliberate abort (bailout panic) is recorded in the ghost flag.
+//vc:ghost var aborted bool stable-on-return
+// C09: changes of the device were all accepted and the save / commit was
+// confirmed (assigned by the ApplyCommands implementations).
+//vc:ghost var changesConfirmed bool
+// number of change commands (or command pairs) the device accepted
+//vc:ghost var accepted int
+// a request to an HTTP device failed (transport error, status != 200, status != success)
+//vc:ghost var devFailure bool
+//vc:ghost var lastHTTPStatus int
+
+//vc:func Abort
+//vc:  trusted
+//vc:  maypanic
+//vc:  set aborted = true
+//vc:  ensures false
+//vc:  xensures aborted
